@@ -108,6 +108,7 @@ def edit(rng, text, kinds_wanted=None):
 
 
 def cases(rng, quick, gr):
+    yield from file_cases(rng, quick)
     nbase = 120 if quick else 2000
     nedit = 8 if quick else 40
     for i in range(nbase):
@@ -178,6 +179,59 @@ def cases(rng, quick, gr):
                     return "layout edit %s makes a valid script fail: %s: %s" % (tags, type(e).__name__, str(e)[:120])
                 return None if digest(pa) == digest(pb) else "layout edit %s changes the loaded program" % (tags,)
             yield {"tag": "single:" + kind, "text": variant, "pred": pred, "input": {"check": "layout", "text": base, "variant": variant, "edits": tags}}
+
+
+def file_cases(rng, quick):
+    """the same layout edits on FILES loaded with blackbird.load from another working directory: a main file with a relative
+    include, written with every line-end style, with and without final newline, trailing blanks and comments; a decoy file
+    of the same name sits in the working directory"""
+    import os
+    import shutil
+    import tempfile
+    root = tempfile.mkdtemp(prefix="bbverif.", dir="/var/tmp")
+    try:
+        a, b = os.path.join(root, "proj"), os.path.join(root, "elsewhere")
+        os.makedirs(os.path.join(a, "lib"))
+        os.makedirs(os.path.join(b, "lib"))
+        for d, gate in ((a, "Sgate"), (b, "Vac")):
+            with open(os.path.join(d, "lib", "sub.xbb"), "w") as f:
+                f.write("name sub\nversion 1.0\n%s(0.5) | 1\nBSgate(0.1, 0.2) | [1, 4]\n" % gate if gate != "Vac" else "name sub\nversion 1.0\nVac | 1\nVac | 4\n")
+        base = 'name main\nversion 1.0\ninclude "lib/sub.xbb"\n\nfloat x = 0.5\nsub | [0, 1]\nRgate(x) | 0\nsub | [2, 3]'
+        variants = []
+        for nl in ("\n", "\r\n", "\r"):
+            body = base.replace("\n", nl)
+            for tail in (nl, "", " ", " # end", nl + nl, nl + "# last" , "  " + nl):
+                variants.append((body + tail, "line ends %r, text ends with %r" % (nl, tail)))
+        variants.append((base.replace("\n\nfloat", "\n# about x\n\n\nfloat") + "\n", "comment and blank lines"))
+        paths = []
+        for k, (t, what) in enumerate(variants):
+            pth = os.path.join(a, "main_%d.xbb" % k)
+            with open(pth, "w", newline="") as f:
+                f.write(t)
+            paths.append((pth, what))
+
+        def pred(impl, paths=paths, b=b):
+            import blackbird
+            old = os.getcwd()
+            os.chdir(b)
+            try:
+                ref = None
+                for pth, what in paths:
+                    try:
+                        pr = blackbird.load(pth)
+                    except Exception as e:  # noqa: BLE001
+                        return "loading a FILE (%s) from another working directory fails: %s: %s" % (what, type(e).__name__, str(e)[:100])
+                    dg = digest(pr)
+                    if ref is None:
+                        ref = dg
+                    elif dg != ref:
+                        return "a FILE with %s loads to a different program than the same text with LF line ends and a final newline" % what
+                return None
+            finally:
+                os.chdir(old)
+        yield {"tag": "files", "pred": pred, "key": "file-layouts", "input": {"check": "pred", "tag": "files"}}
+    finally:
+        shutil.rmtree(root, ignore_errors=True)
 
 
 KNOWN_WITNESS = "name p\nversion 1.0\nfor int i in 0:2\n# c\n    Op | i\n"
